@@ -656,6 +656,79 @@ func patterns(r *lib.Report, tier string, samples *[]interface{}) (int64, int64)
 			}
 		}
 	}
+	// nil containers keep their kind: a nil slice / map / func / chan is a value of that kind (only untyped nil
+	// and nil pointers are "nil" to the patterns and to the Nil type). Ordered subsets of up to 3 of
+	// {Kind(Slice), Kind(Map), Kind(Func), Kind(Chan), SumType(Nil|Int x String), Otherwise} x nil and non-nil probes.
+	{
+		var nilFunc func()
+		var nilChan chan int
+		cProbes := []probe{{"nil []int", []int(nil)}, {"empty []int", []int{}}, {"nil map", map[string]int(nil)}, {"empty map", map[string]int{}},
+			{"nil func", nilFunc}, {"func", func() {}}, {"nil chan", nilChan}, {"chan", make(chan int)}, {"untyped nil", nil}, {"typed nil *int", (*int)(nil)}, {"nil []string", []string(nil)}}
+		kindSpec := func(k reflect.Kind) patSpec {
+			return patSpec{"Kind(" + k.String() + ")", func(t string) fpgo.Pattern { return fpgo.InCaseOfKind(k, eff(t)) }, func(v interface{}) bool { return !isNilRef(v) && kindRef(v) == k }}
+		}
+		cSpecs := []patSpec{kindSpec(reflect.Slice), kindSpec(reflect.Map), kindSpec(reflect.Func), kindSpec(reflect.Chan), specs[3], specs[6]}
+		var cOrders [][]int
+		var genC func(cur []int, used int)
+		genC = func(cur []int, used int) {
+			if len(cur) > 0 {
+				cOrders = append(cOrders, append([]int{}, cur...))
+			}
+			if len(cur) == 3 {
+				return
+			}
+			for i := range cSpecs {
+				if used&(1<<i) == 0 {
+					genC(append(cur, i), used|1<<i)
+				}
+			}
+		}
+		genC(nil, 0)
+		for _, ord := range cOrders {
+			states++
+			var ps []fpgo.Pattern
+			var names []string
+			for _, i := range ord {
+				ps = append(ps, cSpecs[i].mk(cSpecs[i].name))
+				names = append(names, cSpecs[i].name)
+			}
+			pm := fpgo.DefPattern(ps...)
+			for _, pb := range cProbes {
+				trans++
+				want := "PANIC"
+				for _, i := range ord {
+					if cSpecs[i].accepts(pb.v) {
+						want = cSpecs[i].name
+						break
+					}
+				}
+				got := ""
+				if p := lib.Catch(func() { got = strings.SplitN(fmt.Sprint(pm.MatchFor(pb.v)), ":", 2)[0] }); p != "" {
+					got = "PANIC"
+				}
+				if got != want {
+					r.Violation(fmt.Sprintf("C20|match-nil-container|probe=%s", pb.name), fmt.Sprintf("patterns %v, value %s: MatchFor chose %s, the first accepting pattern is %s (a nil slice / map / func / chan is a value of its kind)", names, pb.name, got, want),
+						map[string]interface{}{"patterns": names, "probe": pb.name, "got": got, "want": want})
+				}
+			}
+		}
+		// the same for NewCompData: a nil slice is a Slice, not the Nil type
+		prodT := fpgo.DefSum(fpgo.DefProduct(reflect.Int, reflect.Slice), fpgo.NilType)
+		for _, c := range []struct {
+			name string
+			args []interface{}
+			ok   bool
+		}{{"(1, nil []int)", []interface{}{1, []int(nil)}, true}, {"(1, empty []int)", []interface{}{1, []int{}}, true}, {"(nil []int)", []interface{}{[]int(nil)}, false},
+			{"(nil map)", []interface{}{map[string]int(nil)}, false}, {"(untyped nil)", []interface{}{nil}, true}, {"(1, nil map)", []interface{}{1, map[string]int(nil)}, false}} {
+			trans++
+			states++
+			var cd *fpgo.CompData
+			p := lib.Catch(func() { cd = fpgo.NewCompData(prodT, c.args...) })
+			if p != "" || (cd != nil) != c.ok {
+				r.Violation("C20|compdata|nil-container", fmt.Sprintf("NewCompData(Sum(Product(Int,Slice),Nil), %s) returned a value: %v %s; its arguments match the declared type: %v", c.name, cd != nil, p, c.ok), nil)
+			}
+		}
+	}
 	// an effect that fails: MatchFor has chosen the first accepting pattern - its effect is applied, no other
 	// pattern's effect is, and what the effect does (panic with its own value; a nested MatchFor that nothing
 	// accepts) is what the caller sees. Lists [p], [p, q] and [q, p] over all pairs of pattern kinds, p failing.
